@@ -31,6 +31,7 @@ def c09(tier):
     configs = [("dev", False)] + ([("release-host", True)] if tier == 'thorough' else [])
     nvalid = 0
     outcomes = set()
+    optional_rejected = 0
     for cname, rel in configs:
         arts = D.carrier(host_release=rel)
         items = [D.Item(j, S.emit_field_decl(d)) for j, d in enumerate(decls)]
@@ -50,19 +51,22 @@ def c09(tier):
             acc += accepted
             rej += (not accepted)
             text = S.emit_field_decl(d)
-            if v and not accepted:
+            if v and not accepted and not S.decl_order_documented(d):
+                optional_rejected += 1        # an undocumented argument order may be rejected
+            elif v and not accepted:
                 chk.add_violation(f"valid but rejected [{cname}]: {text}", "valid_rejected",
                                   f"valid declaration rejected ({cname} macro build): {text} :: {errs[j][0]}",
                                   decl_replay(text, "accept"))
             elif (not v) and accepted:
                 chk.add_violation(f"invalid but accepted [{cname}]: {text}", "invalid_accepted",
                                   f"invalid declaration accepted ({cname} macro build): {text}", decl_replay(text, "reject"))
-            elif v:
+            elif v and accepted:
                 accepted_valid.append((j, d))
         nvalid = len(accepted_valid)
         chk.per_family[f"decl:{cname}"] = {"fields": len(decls), "transitions": len(decls), "states": len(decls), "violations": 0}
         chk.extra[f"accepted_{cname}"] = acc
         chk.extra[f"rejected_{cname}"] = rej
+        chk.extra["valid_declarations_in_undocumented_argument_order_rejected"] = optional_rejected
         # pass 2: the accepted valid declarations alone, with a use of every accessor, through codegen
         items2 = [D.Item(j, S.emit_field_decl(d), probes=[("use", S.use_probe(d))]) for j, d in accepted_valid]
         errs2, unatt2 = D.compile_items(arts, items2, f"c09-{cname}-p2", emit="link", nshards=32)
@@ -90,6 +94,7 @@ def c09(tier):
                       " (lo,hi in [0,N+1] incl. lo>hi; bit/bits form; types bool,u(w-1),u(w),u(w+1),iN; array K in {none,1,2,3}; stride in {omitted,w-1,w,w+1,N}; "
                       "two-range lists over a boundary set); boundary product for " + ("u16,u12,u32,u24,u64,u40,u128,u100,u127,u1" if tier == 'quick' else "every supported base") +
                       " (positions around 0,N-1,N,N+1,W-1,W,W+1; native widths; arrays ending at N-2..W); unsupported bases; both directions; "
+                      "array declarations also with the attribute arguments in an undocumented order (stride or access first): for these only 'invalid => rejected' is demanded; "
                       "accepted valid declarations recompiled alone with a use of every accessor through codegen" +
                       ("; macro built with and without overflow checks" if tier == 'thorough' else ""))
     return chk.finish()
@@ -363,8 +368,11 @@ def c18_structs(tier):
                 s2.has_builder = False
             picked.append(s2)
     Bd.name_structs(picked, prefix="D")
-    for s in picked:
+    for k, s in enumerate(picked):
         s.name = "S"
+        # every third struct: user attribute first, doc comment after it
+        if k % 3 == 1:
+            s.doc_after_attrs = True
     return picked
 
 
